@@ -321,6 +321,12 @@ theorem offsets_nodup_step (s : St) (op : Op) (h : (AMap.keys s.offsets).Nodup) 
       · exact h
       · simp [AMap.keys]
     | crash => simp [step, crash, AMap.keys]
+    | rebalance lo hi =>
+      simp only [step]
+      rcases rebalanceSession_cases s lo hi with ⟨_, e⟩ | ⟨_, _, _, _, e⟩ | ⟨offs, dirty, any, _, _, _, hl, e⟩ <;> rw [e]
+      · exact h
+      · simp [rebalBase, closedOf, AMap.keys]
+      · rw [rebalDone_offsets, load_keys hl]; exact vbRange_nodup _
     | _ => rw [step_offsets s (by rfl)]; exact h
 
 end GoDcp.B
